@@ -59,7 +59,12 @@ RULE = ('random call graphs: 1-5 levels, 1-2 callables per level drawn from func
         'case (i % 5 == 2) adds an enumeration of such enumerators (and the constants of those names, integer / string / '
         'boolean) read as E::name in one or two callables of different kinds - in an expression, a where clause, a loop '
         'condition, an if condition - next to the bare constants, the parameter, the local and the function of those names, '
-        'in a derived attribute and from Python')
+        'in a derived attribute and from Python; in 30 % of the cases the key letters of the external entities are names '
+        'that mean something to Python / the implementation\'s modules (time, sys, os, str, __name__ ..) or other spellings of '
+        'the built-in entities (Log, tim ..); every 5th case (i % 5 == 0) adds an instance-based and a class-based operation '
+        'named like ATTRIBUTES of their class, invoked as self.n(..) from an operation and a derived attribute, through selected '
+        '/ loop handles, in a where clause, a loop condition, as a statement and in the transform form, next to reads of the '
+        'attribute, before and after the attribute is written; from Python through the class with the instance as the receiver')
 EXHAUSTIVE = {'quick': False, 'thorough': False}
 ASSUMPTIONS = ['bodies are type-correct, terminating and error-free under the reference semantics (decided by Spec)',
                'callables do not delete instances; callables used in where clauses and derived attributes do not change the population',
@@ -215,7 +220,25 @@ def twin_names(rng, enums, consts):
     return enums, consts
 
 
-def gen_model(rng, max_levels, body_stmts):
+EE_KEY_LETTERS = ['time', 'sys', 'datetime', 'os', 'logging', 'xtuml', 'interpret', 'ooaofooa', 'functools', 'collections', 'uuid',
+                  'math', 're', 'log', 'Log', 'tim', 'Tim', 'Arch', 'nvs', 'Persist', 'str', 'int', 'object', 'print', 'one', 'many',
+                  'partial', 'logger', '__name__', '__doc__', '__file__', '__builtins__', 'Ee1', 'ee']
+
+
+def ee_key_letters(rng):
+    """the key letters of the model's external entities are the MODEL's names: in 30 % of the cases they are not EE1 / EE2
+    but names that mean something else to Python or to the implementation's modules (standard modules, built-ins, module
+    attributes, helpers the implementation imports) or other spellings of the five built-in entities LOG / ARCH / TIM /
+    NVS / PERSIST (only exactly those five are realised in Python; `Log`, `tim` .. are modelled entities like any other):
+    their bridges run their modelled bodies"""
+    r = rng
+    if r.random() >= 0.3:
+        return 'EE1', 'EE2'
+    a, b = r.sample(EE_KEY_LETTERS, 2)
+    return a, (b if r.random() < 0.5 else 'EE2')
+
+
+def gen_model(rng, max_levels, body_stmts, ee='EE1'):
     """-> (spec for gen_bp_model, list of callable descriptions with their bodies, enums, consts)"""
     r = rng
     enums = []
@@ -253,7 +276,7 @@ def gen_model(rng, max_levels, body_stmts):
                       allow_delete=False, allow_mutation=not pure, enums=enums, consts=gen_consts, schema=SCHEMA,
                       ret_ty=sig['ret'], rec_call=rec, derived_attr=attr, create_in_loops=False,
                       max_call_sites=r.choice([1, 2, 2, 3]), derived_chain=chain, derived_nav=nav)
-        prog = G.keyword_calls(g.gen_program(), r.fork('kw', sig['name']) if hasattr(r, 'fork') else r, lambda ns: ns.startswith('EE'))
+        prog = G.keyword_calls(g.gen_program(), r.fork('kw', sig['name']) if hasattr(r, 'fork') else r, lambda ns: ns == ee or ns.startswith('EE'))
         return prog, G.render(prog, g.uppercase)
 
     costs = {}
@@ -302,7 +325,7 @@ def gen_model(rng, max_levels, body_stmts):
             if kind == 'function':
                 sig = _sig('function', new_name('fn'), None, params, ret, pure)
             elif kind == 'bridge':
-                sig = _sig('bridge', new_name('br'), 'EE1', params, ret, pure)
+                sig = _sig('bridge', new_name('br'), ee, params, ret, pure)
             elif kind == 'classop':
                 sig = _sig('classop', new_name('cop'), cls, params, ret, pure)
             elif kind == 'instop':
@@ -582,7 +605,7 @@ def add_boom(rng, callables, entries):
     head, rest = entries[:k], entries[k:]
     out = head + [['fn', 'boom', {}, 'fails']]
     # what was asked before the failure is asked again after it
-    again = [list(e) for e in head if e[0] in ('fn', 'brg', 'cop', 'iop', 'dattr')][-2:]
+    again = [list(e) for e in head if e[0] in ('fn', 'brg', 'cop', 'iop', 'iopc', 'dattr')][-2:]
     out += again + rest
     if r.random() < 0.5:
         out += [['fn', 'boom', {}, 'fails']] + [list(e) for e in again[:1]]
@@ -625,7 +648,7 @@ def add_builtin_ees(rng, callables, entries):
     return entries[:k] + extra + entries[k:]
 
 
-def add_samename(rng, callables, entries, pop):
+def add_samename(rng, callables, entries, pop, ee1='EE1', ee2='EE2'):
     """callables of DIFFERENT kinds / external entities / classes that share ONE name and have different bodies, all
     invoked on one component in varying order, each more than once, and from one OAL caller: every one of them has to
     run its own body (nothing may be remembered under the bare name)"""
@@ -641,16 +664,16 @@ def add_samename(rng, callables, entries, pop):
         callables.append(h)
         return h
     mk('function', None, vals[0])
-    mk('bridge', 'EE1', vals[1])
-    mk('bridge', 'EE2', vals[2])
+    mk('bridge', ee1, vals[1])
+    mk('bridge', ee2, vals[2])
     mk('classop', 'A', vals[3])
     second = r.choice(['classop', 'instop']) if pop['inst']['B'] else 'classop'
     mk(second, 'B', vals[4])
-    calls = [['fn', nm, {}], ['brg', 'EE1', nm, {}], ['brg', 'EE2', nm, {}], ['cop', 'A', nm, {}],
+    calls = [['fn', nm, {}], ['brg', ee1, nm, {}], ['brg', ee2, nm, {}], ['cop', 'A', nm, {}],
              (['cop', 'B', nm, {}] if second == 'classop' else ['iop', 'B', r.randrange(len(pop['inst']['B'])), nm, {}])]
     body = [['return', ['bin', '+', ['bin', '+', ['bin', '*', ['callf', nm, []], ['int', 1000]],
-                                     ['bin', '*', ['calln', 'EE2', nm, []], ['int', 100]]],
-                        ['bin', '+', ['bin', '*', ['calln', 'A', nm, []], ['int', 10]], ['calln', 'EE1', nm, []]]]]]
+                                     ['bin', '*', ['calln', ee2, nm, []], ['int', 100]]],
+                        ['bin', '+', ['bin', '*', ['calln', 'A', nm, []], ['int', 10]], ['calln', ee1, nm, []]]]]]
     caller = _sig('function', 'samecall', None, [], 'integer', True)
     caller.update(recursive=False, level=lvl + 1, body=body, text=G.render(body), cost=5)
     callables.append(caller)
@@ -660,7 +683,7 @@ def add_samename(rng, callables, entries, pop):
     return entries[:k] + order[:6] + entries[k:] + order[6:]
 
 
-def add_novalue(rng, callables, entries, pop):
+def add_novalue(rng, callables, entries, pop, ee='EE1'):
     """a callable with a NON-VOID return type whose executed path has no value return (falls off the end, or a bare
     `return;`): it delivers nothing (None when invoked from Python) - not the default of the declared type"""
     r = rng
@@ -676,7 +699,7 @@ def add_novalue(rng, callables, entries, pop):
     if shape == 'bare-return':
         body.append(['return', None])
     lvl = max([x['level'] for x in callables] or [0])
-    h = _sig(kind, 'nv', {'function': None, 'bridge': 'EE1', 'classop': 'A', 'instop': 'A'}[kind], [('t', 'boolean')], ret, True)
+    h = _sig(kind, 'nv', {'function': None, 'bridge': ee, 'classop': 'A', 'instop': 'A'}[kind], [('t', 'boolean')], ret, True)
     h.update(recursive=False, level=lvl, body=body, text=G.render(body), cost=1, novalue=shape)
     callables.append(h)
 
@@ -684,7 +707,7 @@ def add_novalue(rng, callables, entries, pop):
         if kind == 'function':
             return ['fn', 'nv', {'t': t}]
         if kind == 'bridge':
-            return ['brg', 'EE1', 'nv', {'t': t}]
+            return ['brg', ee, 'nv', {'t': t}]
         if kind == 'classop':
             return ['cop', 'A', 'nv', {'t': t}]
         return ['iop', 'A', r.randrange(len(pop['inst']['A'])), 'nv', {'t': t}]
@@ -692,7 +715,7 @@ def add_novalue(rng, callables, entries, pop):
     return entries[:k] + [call(False), call(True), call(False)] + entries[k:]
 
 
-def add_enum_twins(rng, callables, enums, consts, entries, pop):
+def add_enum_twins(rng, callables, enums, consts, entries, pop, ee='EE1'):
     """an enumeration whose enumerators are called like OTHER things of the same model - constants (integer, string,
     boolean; in the one constant specification the generated models have), the enumeration itself, a class, a function, the
     external entity, a parameter / a local variable of the reading body, an attribute - next to plain ones; every enumerator
@@ -712,7 +735,8 @@ def add_enum_twins(rng, callables, enums, consts, entries, pop):
         if nm not in have and nm not in [c[0] for c in new_consts]:
             new_consts.append((nm, ty, text))
     fname = 'twf'
-    others = [en, r.choice(['A', 'B']), fname, 'EE1', 'x', 'k', 'n', 'R1']
+    # (enumerator names with a leading underscore are outside the generated domain, like Python keywords)
+    others = [en, r.choice(['A', 'B']), fname, ee if not ee.startswith('_') else 'EE1', 'x', 'k', 'n', 'R1']
     r.shuffle(others)
     plain = ['first', 'last', 'mid']
     r.shuffle(plain)
@@ -757,7 +781,7 @@ def add_enum_twins(rng, callables, enums, consts, entries, pop):
                  fold('acc', ['var', 'i']),
                  ['if', ['bin', '==', E(nc), ['int', names.index(nc)]], [fold('acc', ['int', 1])], [], [fold('acc', ['int', 2])]],
                  ['return', ['var', 'acc']]]
-        ns = {'function': None, 'bridge': 'EE1', 'classop': cls, 'instop': cls}[kind]
+        ns = {'function': None, 'bridge': ee, 'classop': cls, 'instop': cls}[kind]
         h = _sig(kind, name, ns, [('x', 'integer')], 'integer', True)
         h.update(recursive=False, level=lvl + 1, body=body, text=G.render(body), cost=3, enum_twins=True)
         callables.append(h)
@@ -765,7 +789,7 @@ def add_enum_twins(rng, callables, enums, consts, entries, pop):
         if kind == 'function':
             return ['fn', name, kw]
         if kind == 'bridge':
-            return ['brg', 'EE1', name, kw]
+            return ['brg', ee, name, kw]
         if kind == 'classop':
             return ['cop', cls, name, kw]
         return ['iop', cls, r.randrange(len(pop['inst'][cls])), name, kw]
@@ -788,6 +812,74 @@ def add_enum_twins(rng, callables, enums, consts, entries, pop):
     for cn, _, _ in new_consts[:2]:
         block.append(['const', cn])
     r.shuffle(block)
+    k = r.randrange(len(entries) + 1)
+    return entries[:k] + block + entries[k:]
+
+
+def add_attr_twin_ops(rng, callables, entries, pop):
+    """operations named like ATTRIBUTES of their class (`h.n` is the attribute, `h.n(..)` the operation: OAL tells them apart
+    by syntax): an instance-based operation called like an attribute, a class-based one called like another attribute, both
+    reading the attributes of those names; invoked as `self.n(..)` from another operation and from a derived attribute,
+    through a selected handle, a loop variable, in a where clause and a loop condition, as a statement - next to reads of
+    the attribute; from Python the instance-based one is invoked through the class with the instance as the receiver
+    (`Class.n(inst, x=..)`: on the instance Python's one name space has the attribute value under that name)"""
+    r = rng
+    cls = r.choice([c for c in ('A', 'B') if pop['inst'][c]] or [None])
+    if cls is None:
+        return entries
+    lvl = max([x['level'] for x in callables] or [0])
+    attrs = [(a, t) for a, t, ref in SCHEMA['classes'][cls] if not ref and t in ('integer', 'string', 'boolean')]
+    r.shuffle(attrs)
+    (ia, it), (ca, ct) = attrs[0], attrs[1]
+
+    def test(h, a, t):
+        e = ['attr', h, a]
+        return e if t == 'boolean' else ['bin', '==', e, ['str', r.choice(G.STRINGS)]] if t == 'string' else ['bin', '>', e, ['int', 1]]
+    mul = r.choice([2, 3, 5])
+    ib = [['if', test(['self'], ia, it), [['return', ['bin', '+', ['param', 'x'], ['int', r.choice([50, 60])]]]], [], None],
+          ['return', ['bin', '+', ['bin', '*', ['attr', ['self'], 'n'], ['int', mul]], ['param', 'x']]]]
+    h = _sig('instop', ia, cls, [('x', 'integer')], 'integer', True)
+    h.update(recursive=False, level=lvl, body=ib, text=G.render(ib), cost=1, attr_twin=True)
+    callables.append(h)
+    cb = [['select_from', 'many', 'qs', cls, None], ['return', ['bin', '+', ['un', 'cardinality', ['var', 'qs']], ['int', r.choice([7, 8])]]]]
+    h = _sig('classop', ca, cls, [], 'integer', True)
+    h.update(recursive=False, level=lvl, body=cb, text=G.render(cb), cost=1)
+    callables.append(h)
+
+    def op(hd, x):
+        return ['callo', hd, ia, [['x', ['int', x]]]]
+    vb = [['return', ['bin', '+', ['bin', '*', op(['self'], 1), ['int', 2]], ['calln', cls, ca, []]]]]
+    v = _sig('instop', 'viaself', cls, [], 'integer', True)
+    v.update(recursive=False, level=lvl + 1, body=vb, text=G.render(vb), cost=3)
+    callables.append(v)
+    db = [['setattr', ['self'], 'dop', ['bin', '+', op(['self'], 2), ['attr', ['self'], 'n']]]]
+    d = _sig('derived', 'dop', cls, [], 'integer', True)
+    d.update(recursive=False, level=lvl + 1, body=db, text=G.render(db), cost=2, nav=False)
+    callables.append(d)
+    fold = lambda e: ['assign', 'acc', ['bin', '+', ['bin', '*', ['var', 'acc'], ['int', 7]], e]]
+    fb = [['select_from', 'many', 'qs', cls, ['bin', r.choice(['>=', '<', '!=']), ['callo', ['selected'], ia, [['x', ['int', 0]]]], ['int', r.choice([0, 3, 50])]]],
+          ['assign', 'acc', ['un', 'cardinality', ['var', 'qs']]],
+          ['select_from', 'many', 'qa', cls, None],
+          ['foreach', 'q', 'qa', [fold(['bin', '+', op(['var', 'q'], 1), ['attr', ['var', 'q'], 'n']]),
+                                  ['if', test(['var', 'q'], ia, it), [fold(['int', 1])], [], None]]],
+          ['select_from', 'any', 'q1', cls, None],
+          ['assign', 'i', ['int', 0]],
+          ['while', ['bin', 'and', ['bin', '<', ['var', 'i'], op(['var', 'q1'], 0)], ['bin', '<', ['var', 'i'], ['int', 2]]],
+           [['assign', 'i', ['bin', '+', ['var', 'i'], ['int', 1]]]]],
+          ['call', op(['var', 'q1'], 4)],
+          ['kwcall', 'transform', ['assign', 'w', op(['var', 'q1'], 5)]],
+          fold(['bin', '+', ['var', 'i'], ['var', 'w']]),
+          ['return', ['var', 'acc']]]
+    f = _sig('function', 'optwins', None, [], 'integer', True)
+    f.update(recursive=False, level=lvl + 2, body=fb, text=G.render(fb), cost=20)
+    callables.append(f)
+    n = len(pop['inst'][cls])
+    block = [['fn', 'optwins', {}], ['iop', cls, r.randrange(n), 'viaself', {}], ['dattr', cls, r.randrange(n), 'dop'],
+             ['iopc', cls, r.randrange(n), ia, {'x': r.choice([0, 2])}], ['cop', cls, ca, {}]]
+    r.shuffle(block)
+    # .. and again after the attribute of that name was written from Python
+    idx = r.randrange(n)
+    block += [['set', cls, idx, 'n', r.choice([0, 2, 12])], ['iopc', cls, idx, ia, {'x': 1}], ['dattr', cls, idx, 'dop'], ['fn', 'optwins', {}]]
     k = r.randrange(len(entries) + 1)
     return entries[:k] + block + entries[k:]
 
@@ -907,7 +999,7 @@ def _entry_sexp(e):
         return [Sym('brg'), e[1], e[2], _kw_sexp(e[3])]
     if k == 'cop':
         return [Sym('cop'), e[1], e[2], _kw_sexp(e[3])]
-    if k == 'iop':
+    if k in ('iop', 'iopc'):
         return [Sym('iop'), [Sym('i'), e[1], e[2]], e[3], _kw_sexp(e[4])]
     if k == 'dattr':
         return [Sym('dattr'), [Sym('i'), e[1], e[2]], e[3]]
@@ -1146,7 +1238,8 @@ def generate(ctx):
         if ctx.out_of_time():
             break
         r = ctx.rng.fork('case', i)
-        callables, enums, consts = gen_model(r.fork('model'), max_levels, body_stmts)
+        ee1, ee2 = ee_key_letters(r.fork('ee-key-letters'))
+        callables, enums, consts = gen_model(r.fork('model'), max_levels, body_stmts, ee=ee1)
         pop = gen_population(r.fork('pop'))
         entries = gen_entries(r.fork('entries'), callables, enums, consts, pop)
         family = 'graph'
@@ -1163,17 +1256,19 @@ def generate(ctx):
                 entries = [['fn', 'clash', {}]]
                 family = 'clash'
         if i % 2 == 0:
-            entries = add_samename(r.fork('samename'), callables, entries, pop)
+            entries = add_samename(r.fork('samename'), callables, entries, pop, ee1, ee2)
         else:
-            entries = add_novalue(r.fork('novalue'), callables, entries, pop)
+            entries = add_novalue(r.fork('novalue'), callables, entries, pop, ee1)
         if i % 10 == 9:
             entries = add_builtin_ees(r.fork('builtin'), callables, entries)
         if i % 5 == 1:
             entries = add_derived_write(r.fork('dwrite'), callables, entries, pop)
         if i % 5 == 3:
             entries = add_failing_derived(r.fork('faild'), callables, entries, pop)
+        if i % 5 == 0:
+            entries = add_attr_twin_ops(r.fork('attrtwins'), callables, entries, pop)
         if i % 5 == 2:
-            entries = add_enum_twins(r.fork('enumtwins'), callables, enums, consts, entries, pop)
+            entries = add_enum_twins(r.fork('enumtwins'), callables, enums, consts, entries, pop, ee1)
         if i % 10 == 4 and entries:
             entries = add_boom(r.fork('boom'), callables, entries)
             family = 'boom'
@@ -1345,6 +1440,9 @@ def _invoke(domain, insts, e):
         return getattr(domain.find_class(e[1]), e[2])(**e[3])
     if k == 'iop':
         return getattr(insts[e[1]][e[2]], e[3])(**e[4])
+    if k == 'iopc':
+        # the same invocation through the class, the instance as the receiver
+        return getattr(domain.find_class(e[1]), e[3])(insts[e[1]][e[2]], **e[4])
     if k == 'dattr':
         return getattr(insts[e[1]][e[2]], e[3])
     if k == 'set':
@@ -1380,7 +1478,7 @@ def _judge(case, obs, calls, raised):
             for k, (a, b) in enumerate(zip(obs[1], exp[1])):
                 if a != b:
                     e = case['entries'][k]
-                    comp = 'value:' + {'fn': 'function', 'brg': 'bridge', 'cop': 'class-operation', 'iop': 'instance-operation',
+                    comp = 'value:' + {'fn': 'function', 'brg': 'bridge', 'cop': 'class-operation', 'iop': 'instance-operation', 'iopc': 'instance-operation',
                                        'dattr': 'derived-attribute', 'enum': 'enumerator', 'const': 'constant', 'set': 'attribute-write',
                                        'relate': 'relate', 'unrelate': 'unrelate'}[e[0]]
                     what = 'invocation #%d %r delivered %r, the bodies specify %r' % (k, e, a, b)
@@ -1412,6 +1510,10 @@ def _judge(case, obs, calls, raised):
     for c in case['callables']:
         if c.get('novalue'):
             stats['non_void_callable_without_value_return_' + c['novalue']] = 1
+    if any(c.get('attr_twin') for c in case['callables']):
+        stats['operations_named_like_attributes_of_their_class'] = 1
+    if any(c['kind'] == 'bridge' and c['ns'] in EE_KEY_LETTERS for c in case['callables']):
+        stats['external_entity_key_letters_that_are_python_names'] = 1
     if any(c.get('enum_twins') for c in case['callables']):
         stats['enumerators_named_like_other_elements_read_in_every_position'] = 1
     cnames = set(n for n, _, _ in case['consts'])
@@ -1421,7 +1523,7 @@ def _judge(case, obs, calls, raised):
         stats['models_with_an_enumerator_named_like_another_element'] = 1
     if case.get('decoy') is not None:
         stats['another_model_interpreted_in_between'] = 1
-    stats['invocations_repeated_after_a_change'] = sum(1 for k, e in enumerate(case['entries']) if e[0] in ('fn', 'brg', 'cop', 'iop') and any(x == e for x in case['entries'][:k]))
+    stats['invocations_repeated_after_a_change'] = sum(1 for k, e in enumerate(case['entries']) if e[0] in ('fn', 'brg', 'cop', 'iop', 'iopc') and any(x == e for x in case['entries'][:k]))
     for c in case['callables']:
         stats['callable_' + c['kind']] = stats.get('callable_' + c['kind'], 0) + 1
         if c.get('recursive'):
@@ -1478,7 +1580,7 @@ def shrink_candidates(case):
     # smaller populations
     for cls in SCHEMA['order']:
         rows = case['pop']['inst'][cls]
-        if rows and not any(e[0] in ('iop', 'dattr', 'set') and e[1] == cls and e[2] == len(rows) - 1 for e in entries) \
+        if rows and not any(e[0] in ('iop', 'iopc', 'dattr', 'set') and e[1] == cls and e[2] == len(rows) - 1 for e in entries) \
                 and not case['pop'].get('links') and not any(e[0] in ('relate', 'unrelate') for e in entries):
             pop = {'inst': dict(case['pop']['inst']), 'links': []}
             pop['inst'][cls] = rows[:-1]
